@@ -140,7 +140,7 @@ func compareTracksEnv(c *core.Ctx, stream string, i int, p model.Piece, ns []int
 }
 
 func checkC06(c *core.Ctx) {
-	c.Rule("random instance documents (chords of 3..6 notes, rests leading/inner/trailing, tempo/meter/key/text changes anywhere) each written with several --track N; " +
+	c.Rule("random instance documents (chords of 3..6 notes, rests leading/inner/trailing, tempo/meter/key/text changes anywhere) each written with several --track N (2..32; `wide`: 33..4097 under GOMAXPROCS default/1/2/3/4/7; long pieces of 120-420 instances; pieces beyond 2^28 ticks); " +
 		"merged multiset of (absolute tick, event bytes) without end-of-track must equal that of --track 1, and every track's end-of-track tick must be the total duration computed in exact rationals (trailing rests included); " +
 		"non-trivial = (piece, N) with N >= 2, a rest not at the start and a mid-piece meta event; distinct by (piece index, N)")
 	c.Assume("smfdec", "math/big totals; either neighbour at exact halves", "distribution of events over tracks is free")
